@@ -188,6 +188,8 @@ func livenessClientDetects(w *World) {
 		T = 3 * I
 	}
 	srv := w.NewScriptServer("10.0.0.1:7000", token)
+	silentFromStart := w.KnobBool("silent_from_the_start", 33)
+	srv.Pong = !silentFromStart
 	if err := srv.Start(); err != nil {
 		w.Fail("%v", err)
 	}
@@ -203,12 +205,17 @@ func livenessClientDetects(w *World) {
 		viol("client-detect", "client-never-logged-in", "frpc did not log in to the scripted server within 30 s")
 		return
 	}
-	// answer heartbeats for a while, then fall silent
-	time.Sleep(time.Duration(r.Range(0, 4*I*1000)) * time.Millisecond)
+	// answer heartbeats for a while, then fall silent - in a third of the runs no heartbeat is ever answered
+	if !silentFromStart {
+		time.Sleep(time.Duration(r.Range(0, 4*I*1000)) * time.Millisecond)
+	}
 	srv.mu.Lock()
 	srv.Pong = false
 	srv.mu.Unlock()
 	silentAt := w.Net.Now()
+	if silentFromStart {
+		silentAt = ss.At
+	}
 	w.Check("C14.client-detects-silent-server")
 	limit := time.Duration(T)*time.Second + time.Duration(I)*time.Second + 3*time.Second
 	ok := w.WaitUntil(limit+120*time.Second, 100*time.Millisecond, ss.IsClosed)
